@@ -55,7 +55,7 @@ def parseReq (req : String) : Option Req :=
         if can ≠ "no" ∧ can ≠ "pre" ∧ can ≠ "ext" then none else
         if api = "bp" ∧ can = "ext" then none else
         if api = "wp" ∧ cb = "1" then none else
-        if api = "bp" ∧ js.splitOn "," |>.contains "cc" then none else
+        if api = "bp" ∧ (js.splitOn ",").contains "cc" then none else
         some { api := api, cb := cb = "1", par := par, cov := cov = "cov=1",
                cfg := { jobs := jl, workers := par, soe := soe = "1", pre := can = "pre",
                         ext := can = "ext", monitor := api = "bp" ∧ cb = "1" } }
